@@ -84,49 +84,61 @@ theorem serial_inj (l : List (Nat × Req)) (hnd : (l.map (·.2.serial)).Nodup) {
     · exfalso; apply hnd.1; rw [← b, ← heq]; exact List.mem_map.mpr ⟨_, a, rfl⟩
     · exact ih hnd.2 a b
 
-/-- removing all entries of key `id` (among them `(id, r)`) keeps the state well formed and makes
-`r.serial` dead; every dead serial stays dead -/
-theorem erase_spec {st : St} {id : Nat} {r : Req} (h : WF st) (hm : (id, r) ∈ st.reqs) :
-    WF { st with reqs := erase st.reqs id } ∧ Dead { st with reqs := erase st.reqs id } r.serial ∧
-    ¬ Dead st r.serial ∧
-    ∀ s, Dead st s → Dead { st with reqs := erase st.reqs id } s := by
-  refine ⟨⟨h.1.sublist (erase_serials_sublist _ _), fun e he => h.2 e (mem_erase he).1⟩,
-          ⟨h.2 _ hm, ?_⟩, fun hd => hd.2 _ hm rfl, fun s hs => ⟨hs.1, fun e he => hs.2 e (mem_erase he).1⟩⟩
+theorem wf_erase {st st' : St} (id : Nat) (h : WF st) (hr : st'.reqs = erase st.reqs id)
+    (hn : st'.nextSerial = st.nextSerial) : WF st' ∧ ∀ s, Dead st s → Dead st' s := by
+  refine ⟨⟨?_, ?_⟩, ?_⟩
+  · rw [hr]; exact h.1.sublist (erase_serials_sublist _ _)
+  · intro e he; rw [hr] at he; rw [hn]; exact h.2 e (mem_erase he).1
+  · intro s hs
+    refine ⟨by rw [hn]; exact hs.1, ?_⟩
+    intro e he; rw [hr] at he; exact hs.2 e (mem_erase he).1
+
+theorem erase_dead {st st' : St} {id : Nat} {r : Req} (h : WF st) (hm : (id, r) ∈ st.reqs)
+    (hr : st'.reqs = erase st.reqs id) (hn : st'.nextSerial = st.nextSerial) : Dead st' r.serial := by
+  refine ⟨by rw [hn]; exact h.2 _ hm, ?_⟩
   intro e he heq
+  rw [hr] at he
   obtain ⟨hmem, hne⟩ := mem_erase he
   have : e = (id, r) := serial_inj st.reqs h.1 hmem hm heq
   exact hne (by rw [this])
 
-theorem finish_ok {st : St} {id : Nat} {r : Req} (res : Result) (h : WF st) (hf : find st.reqs id = some r) :
-    StepOK st (finish st id r res).1 (finish st id r res).2 := by
-  obtain ⟨w, d, nd, k⟩ := erase_spec h (find_mem hf)
-  unfold finish
-  refine ⟨w, fun s hs => ⟨k s hs, ?_⟩, by simp, ?_⟩
-  · intro e he
-    simp only [List.mem_singleton] at he
-    subst he
-    intro heq
-    have heq' : r.serial = s := heq
-    exact nd (heq' ▸ hs)
-  · intro e he
-    simp only [List.mem_singleton] at he
-    subst he
-    exact ⟨d, nd⟩
+theorem wf_erase_wf {st st' : St} (id : Nat) (h : WF st) (hr : st'.reqs = erase st.reqs id)
+    (hn : st'.nextSerial = st.nextSerial) : WF st' := (wf_erase id h hr hn).1
 
-theorem cancel_ok {st : St} (id : Nat) (h : WF st) : StepOK st (cancel st id).1 [] := by
+theorem wf_erase_dead {st st' : St} (id : Nat) (h : WF st) (hr : st'.reqs = erase st.reqs id)
+    (hn : st'.nextSerial = st.nextSerial) {s : Nat} (hs : Dead st s) : Dead st' s := (wf_erase id h hr hn).2 s hs
+
+/-- `st'` has the entries of `st` minus some, plus entries with fresh serials -/
+def Ext (st st' : St) : Prop :=
+  st.nextSerial ≤ st'.nextSerial ∧ ∀ e ∈ st'.reqs, e ∈ st.reqs ∨ st.nextSerial ≤ e.2.serial
+
+theorem Ext.refl (st : St) : Ext st st := ⟨Nat.le_refl _, fun _ he => Or.inl he⟩
+
+theorem Ext.trans {a b c : St} (h1 : Ext a b) (h2 : Ext b c) : Ext a c := by
+  refine ⟨Nat.le_trans h1.1 h2.1, ?_⟩
+  intro e he
+  rcases h2.2 e he with h | h
+  · exact h1.2 e h
+  · exact Or.inr (Nat.le_trans h1.1 h)
+
+theorem cancel_ok {st : St} (id : Nat) (h : WF st) :
+    StepOK st (cancel st id).1 [] ∧ Ext st (cancel st id).1 := by
   unfold cancel
   cases hf : find st.reqs id with
-  | none => exact StepOK.refl h
+  | none => exact ⟨StepOK.refl h, Ext.refl st⟩
   | some r =>
-    obtain ⟨w, _, _, k⟩ := erase_spec h (find_mem hf)
-    exact ⟨w, fun s hs => ⟨k s hs, by simp⟩, by simp, by simp⟩
+    dsimp only
+    exact ⟨⟨wf_erase_wf id h rfl rfl, fun s hs => ⟨by apply wf_erase_dead id h ?_ ?_ hs <;> rfl, by simp⟩, by simp, by simp⟩,
+           ⟨Nat.le_refl _, fun e he => Or.inl (mem_erase he).1⟩⟩
 
-theorem lookup_ok {st : St} (h : WF st) : StepOK st (lookup st).1 [] := by
+theorem lookup_ok {st : St} (sid : Nat) (h : WF st) :
+    StepOK st (lookup st sid).1 [] ∧ Ext st (lookup st sid).1 := by
   unfold lookup
   split
-  · refine ⟨⟨h.1, fun e he => Nat.lt_succ_of_lt (h.2 e he)⟩,
-            fun s hs => ⟨⟨Nat.lt_succ_of_lt hs.1, hs.2⟩, by simp⟩, by simp, by simp⟩
-  · refine ⟨⟨?_, ?_⟩, fun s hs => ⟨⟨Nat.lt_succ_of_lt hs.1, ?_⟩, by simp⟩, by simp, by simp⟩
+  · exact ⟨⟨⟨h.1, fun e he => Nat.lt_succ_of_lt (h.2 e he)⟩,
+            fun s hs => ⟨⟨Nat.lt_succ_of_lt hs.1, hs.2⟩, by simp⟩, by simp, by simp⟩,
+           ⟨Nat.le_succ _, fun e he => Or.inl he⟩⟩
+  · refine ⟨⟨⟨?_, ?_⟩, fun s hs => ⟨⟨Nat.lt_succ_of_lt hs.1, ?_⟩, by simp⟩, by simp, by simp⟩, ⟨Nat.le_succ _, ?_⟩⟩
     · simp only [List.map_cons, List.nodup_cons]
       refine ⟨?_, h.1.sublist (erase_serials_sublist _ _)⟩
       intro hm
@@ -142,6 +154,67 @@ theorem lookup_ok {st : St} (h : WF st) : StepOK st (lookup st).1 [] := by
       rcases List.mem_cons.mp he with rfl | he
       · simp only; have := hs.1; omega
       · exact hs.2 e (mem_erase he).1
+    · intro e he
+      rcases List.mem_cons.mp he with rfl | he
+      · exact Or.inr (Nat.le_refl _)
+      · exact Or.inl (mem_erase he).1
+
+/-- a callback script only issues and cancels lookups: it runs no callback -/
+theorem runScript_ok (self : Nat) : ∀ (acts : List Act) (st : St), WF st →
+    StepOK st (runScript self st acts).1 [] ∧ Ext st (runScript self st acts).1 := by
+  intro acts
+  induction acts with
+  | nil => intro st h; exact ⟨StepOK.refl h, Ext.refl st⟩
+  | cons a as ih =>
+    intro st h
+    cases a with
+    | lookup sid =>
+      have h1 := lookup_ok sid h
+      have h2 := ih _ h1.1.1
+      exact ⟨by simpa [runScript] using h1.1.trans h2.1, by simpa [runScript] using h1.2.trans h2.2⟩
+    | cancel id =>
+      have h1 := cancel_ok id h
+      have h2 := ih _ h1.1.1
+      exact ⟨by simpa [runScript] using h1.1.trans h2.1, by simpa [runScript] using h1.2.trans h2.2⟩
+    | cancelSelf =>
+      have h1 := cancel_ok self h
+      have h2 := ih _ h1.1.1
+      exact ⟨by simpa [runScript] using h1.1.trans h2.1, by simpa [runScript] using h1.2.trans h2.2⟩
+
+/-- the callback of `(id, r)` runs (its script may issue and cancel lookups, its own included),
+then every entry of key `id` is erased: `r.serial` is dead afterwards, dead serials stay dead -/
+theorem finish_ok {st : St} {id : Nat} {r : Req} (res : Result) (h : WF st) (hf : find st.reqs id = some r) :
+    StepOK st (finish st id r res).1 (finish st id r res).2 := by
+  have hm := find_mem hf
+  obtain ⟨hs, hx⟩ := runScript_ok id r.script st h
+  unfold finish
+  generalize runScript id st r.script = rs at hs hx
+  obtain ⟨st1, outs⟩ := rs
+  simp only at hs hx ⊢
+  have hnd : ¬ Dead st r.serial := fun hd => hd.2 _ hm rfl
+  refine ⟨wf_erase_wf id hs.1 rfl rfl, ?_, by simp, ?_⟩
+  · intro s hd
+    refine ⟨by apply wf_erase_dead id hs.1 ?_ ?_ (hs.2.1 s hd).1 <;> rfl, ?_⟩
+    intro e he
+    simp only [List.mem_singleton] at he
+    subst he
+    intro heq
+    have heq' : r.serial = s := heq
+    exact hnd (heq' ▸ hd)
+  · intro e he
+    simp only [List.mem_singleton] at he
+    subst he
+    refine ⟨⟨?_, ?_⟩, hnd⟩
+    · show r.serial < st1.nextSerial
+      exact Nat.lt_of_lt_of_le (h.2 _ hm) hx.1
+    · intro e he heq
+      obtain ⟨hmem, hne⟩ := mem_erase he
+      rcases hx.2 e hmem with h1 | h1
+      · have : e = (id, r) := serial_inj st.reqs h.1 h1 hm heq
+        exact hne (by rw [this])
+      · have hlt : r.serial < st.nextSerial := h.2 _ hm
+        have heq' : e.2.serial = r.serial := heq
+        omega
 
 theorem bump_serials (reqs : List (Nat × Req)) (id : Nat) :
     (reqs.map fun e => if e.1 == id then (e.1, { e.2 with responseCount := e.2.responseCount + 1 }) else e).map
@@ -219,8 +292,9 @@ theorem tick_ok {st : St} (h : WF st) : StepOK st (tick st).1 (tick st).2 := by
 theorem step_ok {st : St} (op : Op) (h : WF st) : StepOK st (step st op).1 (step st op).2.events := by
   cases op with
   | servers n => exact ⟨h, fun s hs => ⟨hs, by simp [step]⟩, by simp [step], by simp [step]⟩
-  | lookup => exact lookup_ok h
-  | cancel id => exact cancel_ok id h
+  | defScript acts => exact ⟨h, fun s hs => ⟨hs, by simp [step]⟩, by simp [step], by simp [step]⟩
+  | lookup sid => exact (lookup_ok sid h).1
+  | cancel id => exact (cancel_ok id h).1
   | running id => exact StepOK.refl h
   | recv d => exact onRecv_ok d h
   | tick => exact tick_ok h
